@@ -10,6 +10,7 @@ def run(ctx):
     D.ord5_flush_order(ctx)
     D.flw4_cursor_values(ctx)
     D.flw5_replay_delete_split(ctx)
+    D.ord10_cursor_before_snapshot(ctx)
     L.lck1_flush_critical_section(ctx, with_reset=False)
     L.lck2_ingest_critical_section(ctx)
     return ctx.finish(
